@@ -5,7 +5,9 @@ from .genprop import GenProp
 class C01(GenProp):
     pid = "C01"
     rule = ("joint degree sequences with N in 0..40 (30% zero rows), 1-5 topologies / 1-3 multi-orbit custom motif types, sizes 1-5, "
-            "column sums repaired to satisfy the handshake, valid scripted randbelow draws per topology; all three algorithm types "
+            "column sums repaired to satisfy the handshake, valid scripted randbelow draws per topology; every hundredth case has 380-520 vertices "
+            "(more than 1024 stubs per topology); callbacks with a fixed or a group-dependent number of edges, returning lists, tuples, one "
+            "shared list object, or re-entering the generator; naming callbacks returning tuples or one-shot iterators; all three algorithm types "
             "and three construction paths are run on the same draws; 16% malformed (handshake-violating) inputs are compared with "
             "the model only; non-trivial = handshake-consistent case with at least two motif instances; distinct = distinct case")
 
